@@ -8,7 +8,7 @@
 (*                                                                         *)
 (* Integers: TLC integers are 32 bit, so a value is either                 *)
 (*   [t |-> "int", v |-> k]        with |k| < 2^30, or                     *)
-(*   [t |-> "tok", v |-> name]     a boundary of the n-bit range:          *)
+(*   [t |-> "tok", name |-> name]     a boundary of the n-bit range:          *)
 (*        MAXU = 2^n-1   MAXS = 2^(n-1)-1   MINS = -2^(n-1)                *)
 (*        MINS1 = -(2^(n-1)-1)   OVERU = 2^n   OVERS = 2^(n-1)             *)
 (*        UNDERS = -2^(n-1)-1                                               *)
@@ -29,6 +29,8 @@ RECURSIVE UVal(_)
 UVal(b) == IF b = <<>> THEN 0 ELSE 2 * UVal(SubSeq(b, 1, Len(b) - 1)) + b[Len(b)]   \* only for values < 2^31
 RECURSIVE Pow2(_)
 Pow2(n) == IF n = 0 THEN 1 ELSE 2 * Pow2(n - 1)
+RECURSIVE BitLength(_)
+BitLength(k) == IF k = 0 THEN 0 ELSE 1 + BitLength(k \div 2)          \* number of significant bits of k >= 0
 AllZero(b) == \A i \in 1..Len(b) : b[i] = 0
 AllOne(b) == \A i \in 1..Len(b) : b[i] = 1
 Fits(k, n) == n >= 31 \/ k < Pow2(n)               \* 0 <= k < 2^n
@@ -49,13 +51,13 @@ FitBits(full, n) == IF AllZero(full) THEN Yes(Zeros(n))
 
 (* the n-bit pattern of integer value val for base type / encoding, or "not representable" *)
 IntBits(val, base, enc, n) ==
-    IF n = 0 THEN No ELSE
+    IF n = 0 THEN (IF val.t = "int" /\ val.v = 0 THEN Yes(<<>>) ELSE No) ELSE      \* zero bits hold the value 0 only
     IF val.t = "tok" THEN
-       (CASE val.v = "MAXU" -> IF base = "uint" /\ enc = "NONE" THEN Yes(Ones(n)) ELSE No
-          [] val.v = "MAXS" -> IF base = "int" THEN Yes(<<0>> \o Ones(n - 1))
+       (CASE val.name = "MAXU" -> IF base = "uint" /\ enc = "NONE" THEN Yes(Ones(n)) ELSE No
+          [] val.name = "MAXS" -> IF base = "int" THEN Yes(<<0>> \o Ones(n - 1))
                                ELSE IF enc = "NONE" THEN Yes(<<0>> \o Ones(n - 1)) ELSE No
-          [] val.v = "MINS" -> IF base = "int" /\ enc = "2C" THEN Yes(<<1>> \o Zeros(n - 1)) ELSE No
-          [] val.v = "MINS1" -> IF base # "int" \/ n < 2 THEN No
+          [] val.name = "MINS" -> IF base = "int" /\ enc = "2C" THEN Yes(<<1>> \o Zeros(n - 1)) ELSE No
+          [] val.name = "MINS1" -> IF base # "int" \/ n < 2 THEN No
                                 ELSE (CASE enc = "2C" -> Yes(<<1>> \o Zeros(n - 2) \o <<1>>)
                                         [] enc = "1C" -> Yes(<<1>> \o Zeros(n - 1))
                                         [] OTHER -> Yes(Ones(n)))
@@ -80,7 +82,11 @@ Low(b) == IF Len(b) <= 30 THEN UVal(b) ELSE UVal(SubSeq(b, Len(b) - 29, Len(b)))
 IntV(k) == [t |-> "int", v |-> k]
 Wide(b) == [t |-> "wide", b |-> b]
 RECURSIVE Bcd(_, _)
-Bcd(b, w) == IF Len(b) < w THEN 0 ELSE 10 * Bcd(SubSeq(b, 1, Len(b) - w), w) + UVal(SubSeq(b, Len(b) - 3, Len(b)))
+\* decimal digits from the right: one digit per w bits (w = 4 packed, 8 unpacked), the digit is the low nibble
+Bcd(b, w) == IF b = <<>> THEN 0
+             ELSE LET lo == SubSeq(b, IF Len(b) > 4 THEN Len(b) - 3 ELSE 1, Len(b))
+                      rest == IF Len(b) > w THEN SubSeq(b, 1, Len(b) - w) ELSE <<>>
+                  IN 10 * Bcd(rest, w) + UVal(lo)
 BitsInt(b, base, enc) ==
     IF b = <<>> THEN IntV(0) ELSE
     IF base = "uint" THEN
